@@ -741,7 +741,7 @@ def fold_genexp(eng, gen, how, start):
             if how == "any" and t:
                 return True
         return how == "all"
-    fr.comp_ordinal += 1
+    fr.comp_ordinal = eng.static_ordinal(fr, n, ast.GeneratorExp)
     spec = eng.comp_spec(fr, fr.comp_ordinal)
     if isinstance(src, ItemsView) and spec is not None and how == "sum":
         ver = src.ver
